@@ -69,7 +69,9 @@ def check_versioned_key_codec(ck, R4):
     rf = [c for c in dv.calls("rfind")]
     ok5 = len(rf) == 1 and A.const_str(rf[0].args[0]) == "#" and not dv.calls("find") and not dv.calls("split")
     ctor = [c for c in dv.calls("VersionedDataSourceKey")]
-    ok5 = ok5 and len(ctor) == 1 and A.norm(A.kwarg(ctor[0], "key")) == "state[0:hash_index]" and A.norm(A.kwarg(ctor[0], "version")) == "state[hash_index + 1:]"
+    ok5 = ok5 and len(ctor) == 1 and A.kwarg(ctor[0], "key") is not None and A.kwarg(ctor[0], "version") is not None \
+        and dv.xnorm(A.kwarg(ctor[0], "key"), dv.nodes(ctor[0])[0]) in ("state[0:state.rfind('#')]", "state[:state.rfind('#')]") \
+        and dv.xnorm(A.kwarg(ctor[0], "version"), dv.nodes(ctor[0])[0]) == "state[state.rfind('#') + 1:]"
     ck.ob(R4, dv.key(None, "split-last"), ok5, "split at the last '#': the key part may itself contain '#' (versions in qualified names)" if ok5 else
           "versioned keys are not split at the last '#': a key containing '#' is cut in the wrong place", dv.where())
     none_ok = any(A.norm(i.test) == "content_key is None" for i in ev.stmts(ast.If)) and any(A.norm(i.test) == "state is None" for i in dv.stmts(ast.If))
@@ -199,7 +201,7 @@ def check(ck):
                             tags_out.add(tt.split(".")[1])
     tags_in = set()
     for n in A.walk_body(da.node):
-        if isinstance(n, ast.Compare) and A.norm(n.left) == "obj_type" and isinstance(n.ops[0], ast.Eq):
+        if isinstance(n, ast.Compare) and isinstance(n.ops[0], ast.Eq) and da.nodes(n) and da.xnorm(n.left, da.nodes(n)[0]) == "state['type']":
             t = A.norm(n.comparators[0])
             if t.startswith("ResultType.") and t.endswith(".name"):
                 tags_in.add(t.split(".")[1])
